@@ -11,6 +11,14 @@ The generator understands exactly the skeleton these files have today:
   lines made of literal C++ text and `{{ name }}` / `{{ i18n('a', 'b') }}` atoms,
   conditions built from  name == 'str' | name in ['a', 'b'] | name | not | and | or | ( )
 and fails loudly (exception -> the check reports the tie as broken) on anything else.
+
+Statement templates (the statements core of Model/EmitStmt: emitLines is an interpreter of these lines):
+  assign/move_assign.j2, assign/move_assign_declare.j2 (the plain branch: neither `is_initializer` nor `is_static`),
+  statement/return.j2 (the branch with a return value), flow/if/{if,else_if,else}.j2 (not the `std::is_same_v` / constexpr forms),
+  flow/while.j2, flow/for/range.j2.
+For each file the translator checks the WHOLE file against the skeleton it has today (the statements block
+`{%- filter indent('\t') %}{%- for statement in statements %}{{ statement }}{%- endfor %}{%- endfilter %}`, where the else-ifs and the
+else clause are spliced, the closing line) and extracts the head / tail lines as pieces; any other shape raises.
 """
 from __future__ import annotations
 
@@ -48,7 +56,7 @@ def cpp_tokens(text: str, keep_space: bool = False) -> list[str]:
 		pos = m.end()
 		if m.lastgroup == 'sp':
 			if keep_space:
-				out.append(' ')
+				out.extend(' ' * len(m.group(0)))   # one blank piece per blank: the model reproduces the text exactly
 			continue
 		out.append(m.group(0))
 	return out
@@ -229,6 +237,92 @@ def parse_template(path: str, i18n: I18n) -> list[tuple[Any, list[tuple[str, str
 	if state != 'end':
 		raise ValueError(f'{path}: template does not end with endif')
 	return branches
+
+
+# ---------------------------------------------------------------------------------------------
+# statement templates
+
+STMT_DIR = 'data/cpp/template'
+BODY_BLOCK = ["{%- filter indent('\\t') %}", '{%- for statement in statements %}', '{{ statement }}', '{%- endfor %}', '{%- endfilter %}']
+STMT_SOURCES = ['assign/move_assign.j2', 'assign/move_assign_declare.j2', 'statement/return.j2', 'flow/if/if.j2', 'flow/if/else_if.j2', 'flow/if/else.j2',
+	'flow/while.j2', 'flow/for/range.j2']
+
+
+def _lines(rel: str) -> list[str]:
+	with open(os.path.join(STMT_DIR, rel), encoding='utf-8') as f:
+		text = f.read()
+	if text.endswith('\n'):
+		text = text[:-1]
+	return text.split('\n')
+
+
+def _expect(rel: str, got: list[str], want: list[str]) -> None:
+	"""tag lines are compared without their indentation (jinja2 `{%-` strips it); content lines exactly"""
+	norm = [ln.lstrip('\t ') if ln.lstrip('\t ').startswith('{%') else ln for ln in got]
+	if norm != want:
+		raise ValueError(f'{STMT_DIR}/{rel}: unexpected template skeleton:\n  got  {norm}\n  want {want}')
+
+
+def parse_statement_templates(i18n: I18n) -> dict[str, Any]:
+	"""-> {'lines': {name: pieces}, 'tails': {name: closing line}}"""
+	lines: dict[str, list[tuple[str, str]]] = {}
+	tails: dict[str, str] = {}
+
+	def head(rel: str, text: str) -> list[tuple[str, str]]:
+		return parse_line(text, i18n, f'{STMT_DIR}/{rel}')
+
+	# assign/move_assign.j2: one line
+	got = _lines('assign/move_assign.j2')
+	if len(got) != 1:
+		raise ValueError('assign/move_assign.j2: expected a single content line')
+	lines['stmtAssign'] = head('assign/move_assign.j2', got[0])
+	# assign/move_assign_declare.j2: if is_initializer / elif is_static / else <plain> / endif
+	got = _lines('assign/move_assign_declare.j2')
+	if len(got) != 7 or [got[0], got[2], got[4], got[6]] != ['{%- if is_initializer -%}', '{%- elif is_static -%}', '{%- else -%}', '{%- endif -%}']:
+		raise ValueError(f'assign/move_assign_declare.j2: unexpected branch structure {got}')
+	lines['stmtDeclare'] = head('assign/move_assign_declare.j2', got[5])
+	# statement/return.j2: if return_self / return *this; / else / return{% if return_value %} {{ return_value }}{% endif %}; / endif
+	got = _lines('statement/return.j2')
+	if len(got) != 5 or [got[0], got[2], got[4]] != ['{%- if return_self -%}', '{%- else -%}', '{%- endif -%}']:
+		raise ValueError(f'statement/return.j2: unexpected branch structure {got}')
+	m = re.fullmatch(r'(.*)\{% if return_value %\}(.*)\{% endif %\}(.*)', got[3])
+	if not m:
+		raise ValueError(f'statement/return.j2: unexpected return line {got[3]!r}')
+	lines['stmtReturn'] = head('statement/return.j2', m.group(1) + m.group(2) + m.group(3))
+	# flow/while.j2, flow/for/range.j2: head, statements block, closing line
+	for name, rel in (('stmtWhile', 'flow/while.j2'), ('stmtForRange', 'flow/for/range.j2')):
+		got = _lines(rel)
+		if len(got) != 7:
+			raise ValueError(f'{rel}: expected head + statements block + closing line')
+		_expect(rel, got[1:6], BODY_BLOCK)
+		lines[name + 'Head'] = head(rel, got[0])
+		tails[name + 'Tail'] = got[6]
+	# flow/if/else.j2: head + statements block
+	got = _lines('flow/if/else.j2')
+	_expect('flow/if/else.j2', got[1:], BODY_BLOCK)
+	lines['stmtElseHead'] = head('flow/if/else.j2', got[0])
+	# flow/if/else_if.j2: `set is_type_expr`, head with the inline constexpr switch (off for a condition that is no type expression), block
+	got = _lines('flow/if/else_if.j2')
+	if got[0] != "{%- set is_type_expr = condition.startswith('std::is_same_v') -%}":
+		raise ValueError(f'flow/if/else_if.j2: unexpected first line {got[0]!r}')
+	m = re.fullmatch(r'(.*)\{% if is_type_expr %\}constexpr \{% endif %\}(.*)', got[1])
+	if not m:
+		raise ValueError(f'flow/if/else_if.j2: unexpected head {got[1]!r}')
+	_expect('flow/if/else_if.j2', got[2:], BODY_BLOCK)
+	lines['stmtElifHead'] = head('flow/if/else_if.j2', m.group(1) + m.group(2))
+	# flow/if/if.j2: the `std::is_same_v` form first, the ordinary form in the else branch
+	got = _lines('flow/if/if.j2')
+	if got[0] != "{%- if condition.startswith('std::is_same_v') -%}" or got[-1].strip() != '{%- endif -%}':
+		raise ValueError('flow/if/if.j2: unexpected outer structure')
+	try:
+		at = [ln.strip() for ln in got].index('{%- else -%}')
+	except ValueError:
+		raise ValueError('flow/if/if.j2: no else branch') from None
+	rest = got[at + 1:-1]
+	_expect('flow/if/if.j2', rest[1:-1], [*BODY_BLOCK, '{%- for else_if in else_ifs %}', '{{ else_if }}', '{%- endfor %}', '{%- if else_clause %}', '{{ else_clause }}', '{%- endif %}'])
+	lines['stmtIfHead'] = head('flow/if/if.j2', rest[0])
+	tails['stmtIfTail'] = rest[-1]
+	return {'lines': lines, 'tails': tails}
 
 
 # ---------------------------------------------------------------------------------------------
@@ -452,6 +546,16 @@ def render() -> tuple[str, int]:
 	out.append(',\n'.join(f'  ({lstr(k)}, {v})' for k, v in binary))
 	out.append(']')
 	out.append('')
+	st = parse_statement_templates(i18n)
+	entries += len(st['lines']) + len(st['tails'])
+	out.append('/-! statement templates: ' + ', '.join(f'{STMT_DIR}/{r}' for r in STMT_SOURCES) + ' -/')
+	out.append('')
+	for name, ps in st['lines'].items():
+		out.append(f'def {name} : List Piece := {lean_pieces(ps)}')
+		out.append('')
+	for name, tail in st['tails'].items():
+		out.append(f'def {name} : Str := {lstr(tail)}')
+		out.append('')
 	out.append('end Tranp.Generated.CppTemplates')
 	return '\n'.join(out) + '\n', entries
 
@@ -462,4 +566,4 @@ def generate() -> list[dict[str, Any]]:
 	path = os.path.join(common.GENERATED_DIR, 'CppTemplates.lean')
 	changed = common.write_if_changed(path, text)
 	return [{'file': 'lean/Tranp/Generated/CppTemplates.lean', 'entries': entries, 'changed': changed,
-		'sources': [*TEMPLATES.values(), 'data/i18n.yml', 'data/grammar.lark', 'rogw/tranp/implements/cpp/transpiler/py2cpp.py (CppOperatorPrecedences)']}]
+		'sources': [*TEMPLATES.values(), *[f'{STMT_DIR}/{r}' for r in STMT_SOURCES], 'data/i18n.yml', 'data/grammar.lark', 'rogw/tranp/implements/cpp/transpiler/py2cpp.py (CppOperatorPrecedences)']}]
